@@ -670,16 +670,26 @@ pub fn owned_prefixes(prop: &str) -> &'static [&'static str] {
         "C04" => &["ledger/mismatch", "ledger/invented"],
         "C05" => &["ledger/double-drop", "ledger/leak", "ledger/option", "ledger/drop-of-garbage"],
         "C06" => &["hang/"],
-        "C07" => &["hb/race", "life/"],
+        "C07" => &["hb/race", "life/", "ledger/drop-of-garbage"],
         "C08" => &["cap/"],
         "C09" => &["ledger/", "order/", "hang/", "count/"],
+        "C10" => &["close/", "hang/"],
+        "C11" => &["disc/", "hang/"],
+        "C12" => &["count/"],
+        "C13" => &["time/", "ledger/leak", "ledger/double-drop", "ledger/option", "ledger/failed-send-delivered", "life/", "hang/"],
+        "C14" => &["nonblock/", "ledger/failed-send-delivered", "ledger/lost", "ledger/option", "explain/none"],
+        "C15" => &["ledger/", "life/", "order/", "hang/"],
+        "C16" => &["poll/", "stream/", "hang/", "ledger/dup-receive", "ledger/invented", "order/", "panic/undocumented"],
+        "C19" => &["drain/", "order/", "nonblock/", "ledger/failed-send-delivered", "ledger/dup-receive"],
         _ => &[],
     }
 }
 
 pub fn evaluate(prop: &str, d: &RunData) -> (Vec<Violation>, Vec<Violation>) {
+    use crate::oracle2::*;
     let a = Analysis::new(d);
     let mut all = o_abort(&a);
+    let done = a.completed;
     match prop {
         "C01" => all.extend(o_delivery(&a)),
         "C02" => all.extend(o_order(&a)),
@@ -694,10 +704,60 @@ pub fn evaluate(prop: &str, d: &RunData) -> (Vec<Violation>, Vec<Violation>) {
             all.extend(o_delivery(&a));
             all.extend(o_drops(&a));
             all.extend(o_order(&a));
+            if done {
+                all.extend(o_count(&a));
+            }
+        }
+        "C10" => {
+            if done {
+                all.extend(o_close(&a));
+            }
+        }
+        "C11" => {
+            if done {
+                all.extend(o_disc(&a));
+            }
+        }
+        "C12" => {
+            if done {
+                all.extend(o_count(&a));
+            }
+        }
+        "C13" => {
+            all.extend(o_time(&a));
+            all.extend(o_drops(&a));
+            all.extend(o_delivery(&a));
+        }
+        "C14" => {
+            all.extend(o_nonblock(&a));
+            all.extend(o_delivery(&a));
+            all.extend(o_drops(&a));
+            if done {
+                all.extend(crate::explain::o_explain(d).0);
+            }
+        }
+        "C15" => {
+            all.extend(o_delivery(&a));
+            all.extend(o_drops(&a));
+            all.extend(o_order(&a));
+        }
+        "C16" => {
+            all.extend(o_poll(&a));
+            all.extend(o_delivery(&a));
+            all.extend(o_order(&a));
+        }
+        "C19" => {
+            all.extend(o_drain(&a));
+            all.extend(o_order(&a));
+            all.extend(o_nonblock(&a));
+            all.extend(o_delivery(&a));
         }
         _ => {}
     }
     let owned = owned_prefixes(prop);
-    let (mine, foreign): (Vec<Violation>, Vec<Violation>) = all.into_iter().partition(|x| owned.iter().any(|p| x.sig.starts_with(p)));
+    // C13 owns a hang only when a timed operation is among the stuck ones
+    let (mine, foreign): (Vec<Violation>, Vec<Violation>) = all.into_iter().partition(|x| {
+        owned.iter().any(|p| x.sig.starts_with(p)) && !(prop == "C13" && x.sig.starts_with("hang/") && !x.sig.contains("timeout"))
+    });
     (mine, foreign)
 }
